@@ -179,13 +179,14 @@ class TriggerHandler:
                 for action in actions:
                     try:
                         ctx: ActionContext
-                        # other threads can be at the same tracepoint: the limits only hold if the check, the
-                        # processing and the record (on exit of the context) are one step. The lock is held by a
-                        # 'with' statement, so that no failure in between can leave it locked.
-                        with action.lock:
-                            with trigger_context.action_context(action) as ctx:
-                                if ctx.can_trigger():
-                                    ctx.process()
+                        with trigger_context.action_context(action) as ctx:
+                            # other threads can be at the same tracepoint: the limits only hold if the check and the
+                            # record of the fire are one step. The lock is held for that step only - not while the
+                            # condition is evaluated or the action is processed: that runs code of the application
+                            # (expressions, __str__, ...) which may wait for a lock of its own, held by a thread
+                            # that is waiting for this tracepoint
+                            if ctx.can_trigger() and ctx.record_trigger():
+                                ctx.process()
                     except BaseException:
                         logging.exception("Cannot process action %s", action)
         except BaseException:
